@@ -78,6 +78,21 @@ def gen_case(rng, index, tier):
                     e['occupied'] = True
             case['nodes'] = L.nodes
         case['sel'] = rng.choice(['first', 'last', 'all', 'all'])
+        if rng.random() < 0.35:
+            # a .trashinfo whose payload is gone (what a killed trash-rm or
+            # trash-empty leaves - a state this very property allows): its
+            # restore fails in the middle of a multi-entry selection
+            ht = [t for t in trashes if t['home']] or trashes
+            e = trashgen.add_trashed(L, rng, ht[0]['rel'],
+                                     rng.choice(['zz-gone', 'a-gone']),
+                                     (L.home + '/back/gone-%d' % index),
+                                     rng.choice(['2001-01-01T00:00:00',
+                                                 '2001-01-09T23:59:59']),
+                                     'file', 'c%dgone' % index, home=True,
+                                     volume_rel='', with_payload=False)
+            e['no_payload'] = True
+            entries.append(e)
+            case['nodes'] = L.nodes
     elif cmd == 'empty-days':
         case['days'] = rng.choice([0, 1, 2, 3])
     elif cmd == 'rm':
@@ -146,6 +161,15 @@ def run_case(case):
                 out['violations'].append({
                     'mechanism': 'payload-stranded-without-info/%s/complete-run' % cmd,
                     'detail': {'entry': e, 'run': ref.brief()}})
+            if cmd == 'restore' and not e.get('no_payload'):
+                n0_ = putcheck.norm_sig(s0)
+                pay0 = snap.subtree(n0_, pk)
+                if not (snap.subtree(nref, pk) == pay0 or
+                        same_payload(snap.subtree(nref, e['loc']), pay0) or
+                        same_payload(snap.subtree(nref, e['loc'] + '/' + e['name']), pay0)):
+                    out['violations'].append({
+                        'mechanism': 'restored-entry-complete-nowhere/complete-run',
+                        'detail': {'entry': e, 'run': ref.brief()}})
     finally:
         w.destroy()
     if not ks:
